@@ -200,7 +200,7 @@ PROPS = {
     "C11": dict(
         run="^TestC11$",
         level="exploration",
-        rule=("scripts against the real MessageStreamer through a scripted StreamConnection: flow-control limits (max messages 1,2,3,5,1000; max bytes below / at / above the payload sizes 12, 200, 5000), "
+        rule=("scripts against the real MessageStreamer - two in three through a scripted StreamConnection, one in three through the real StreamingPull RPC over gRPC (limits in the initial request, acks in ack_ids, nacks as modify-deadline 0, and a `mixed` step that puts deadline 0 for some ack ids and 30 s for others into ONE request): flow-control limits (max messages 1,2,3,5,1000; max bytes below / at / above the payload sizes 12, 200, 5000), "
               "1-8 initial messages of mixed sizes, then 2-9 steps drawn from {stream ack, stream nack, gRPC-style nack (modify-deadline 0), Acknowledge outside the stream, publish more, wait}; "
               "oracle: at every Send/SendBatch the messages outstanding from the client's point of view stay within max messages and max bytes (except a single oversized message sent on an empty "
               "window), no delivery is sent twice while outstanding, and whenever the client-side window has room for a deliverable message that fits, a send happens within 2 s (a stall must "
@@ -219,7 +219,10 @@ PROPS = {
               "one in four scripts runs through the services push manager with the subscription's push_config set over gRPC, the others through a bare pusher; oracle: every POST body is the "
               "documented envelope (base64 payload equal as JSON value, attributes, messageId == Publish id, orderingKey, RFC 3339 publishTime, subscription, deliveryAttempt == push number), a "
               "success is final (never pushed again, delivery acknowledged in storage), any other outcome is followed by another push, concurrency seen by the endpoint <= min(1000, 1 + fast "
-              "successes so far); non-trivial = a message failed at least once before succeeding and the window grew beyond 1; distinct by hash of the script"),
+              "successes so far); non-trivial = a message failed at least once before succeeding and the window grew beyond 1; distinct by hash of the script. Lifecycle scripts (TestC19Lifecycle, same case count): the push "
+              "manager service runs while 3-12 generated operations create subscriptions in push or pull mode (3 endpoints), switch endpoint or mode with ModifyPushConfig / UpdateSubscription(push_config), "
+              "delete and re-create them, and publish; endpoints answer 204 only at the URL the subscription is configured with at that moment (503 elsewhere, so a push racing a change is retried); "
+              "oracle: after every publish each live push subscription receives the message at its CURRENT endpoint within 4 s (3-of-3); non-trivial there = a publish after an endpoint switch"),
         assumptions=["real clock (the pusher's fast/slow threshold and the HTTP round trip are wall-clock); retry policy 400-500 ms (the lease must comfortably exceed the latency of the ack transaction, or a slow ack legitimately leads to a second push)", "bounded waits with 3-of-3 confirmation for the 'pushed again' / 'pushed at all' clauses"],
         quick=dict(checks=30, timeout=900),
         thorough=dict(checks=120, shards=8, timeout=3000),
